@@ -164,7 +164,7 @@ def run_family(fam, rng, tier, exe_impl, exe_model, exe_spec):
     res["impl_run"] = True
     res["impl_s"] = round(time.time() - t, 2)
     model = None
-    if exe_model is not None:
+    if exe_model is not None and getattr(fam, "model", True):
         t = time.time()
         model = core.run_lines(exe_model, lines, shards=16)
         res["model_run"] = True
